@@ -790,6 +790,33 @@ Section Safety.
     unfold with_db. rewrite <- Hd. apply trie_eta.
   Qed.
 
+  (* --- a block opened on a batch trie (squash_changes inside squash_changes) --- *)
+  Lemma batch_inner_gen ops outer :
+    exists sc, t_db (drun ops (batch_begin outer)) = DScratch sc /\ wrapped sc = batch_base outer /\
+               cache_ok (cache sc).
+  Proof.
+    destruct (Rc_drun ops (batch_begin outer) (scratch_new (batch_base outer))) as (sc & H1 & H2 & H3).
+    - reflexivity.
+    - constructor.
+    - exists sc. repeat split; assumption.
+  Qed.
+
+  (* left by an exception: the enclosing batch trie — its buffer, root and counts — is exactly as before,
+     whatever the block did (its ScratchDB only ever wrote its own buffer) *)
+  Theorem C05_abort_nested outer osc ops :
+    t_db outer = DScratch osc ->
+    batch_abort outer (drun ops (batch_begin outer)) = outer.
+  Proof. intro Hd. unfold batch_abort. rewrite Hd. reflexivity. Qed.
+
+  (* normal exit on a (pruning) batch trie: the commit cannot fail; the block's buffer is replayed into the
+     enclosing buffer, whose own wrapped store is not touched, and root and counts are adopted *)
+  Theorem C05_commit_nested outer osc inner :
+    t_db outer = DScratch osc -> t_prune outer = true ->
+    batch_commit H BNH outer inner =
+    (Ok tt, with_root (with_refc (with_db outer (DScratch (sreplay true (cache (inner_scratch inner)) osc)))
+                                 (t_refc inner)) (t_root inner)).
+  Proof. intros Hd Hp. unfold batch_commit, commit_db. rewrite Hd, Hp. reflexivity. Qed.
+
   (* ================================================================ *)
   (* C. Which exceptions a computation can raise                      *)
   Section NoExn.
